@@ -17,7 +17,7 @@ func init() {
 			"that dealer and broker session removal visit every registration, invocation, call and subscription of the session and delete the corresponding entries on every path; that every per-session " +
 			"or per-call map of dealer, broker and realm has a delete reachable from the respective removal entry (type-driven completeness); that a call is entered in calls, invocations and " +
 			"invocationByCall together; that testaments are stored only for attached sessions, taken and deleted in the leave action, and published only outside shutdown/kill-all; that a progressive " +
-			"result for a forgotten invocation is answered with INTERRUPT.",
+			"result for a forgotten invocation is answered with INTERRUPT; that a session is entered as callee of a registration at most once, so that one removal leaves no stale entry.",
 		NotDecided: "actual emptiness of the tables after arbitrary histories (a run-time end-state fact), growth through user-held references, ordering races between meta calls and departures beyond the guarded insert.",
 		Run: runC05,
 	})
